@@ -170,6 +170,27 @@ fn target_count_case(case: &mut Case) {
         }
         cut = true;
         case.add("runs_cut_by_target", 1);
+        // What was really generated, recomputed from what the visitor saw: the exhaustive
+        // checkers expand every state they evaluate, so the generated states are the in-boundary
+        // initial states plus the in-boundary successors (with repeats) of every evaluated state.
+        // The checker's own counter is not trusted for this.
+        if strategy.exhaustive() {
+            let inb_inits = model.inits.iter().filter(|i| model.inb[**i as usize]).count();
+            let generated: usize = inb_inits
+                + visited
+                    .iter()
+                    .map(|s| model.out[*s as usize].iter().filter(|e| matches!(e, Some(t) if model.inb[*t as usize])).count())
+                    .sum::<usize>();
+            case.add("generated_counts_recomputed", 1);
+            if generated < target {
+                case.violation(
+                    &format!("C12/target_state_count/{}/stopped-below-target-although-more-exist", strategy.name()),
+                    json!({"model": model.summary(), "threads": threads, "target": target, "state_count_reported": out.state_count,
+                           "generated_recomputed_from_evaluated_states": generated, "visited": visited.len(), "reachable": reach.count}),
+                );
+                return;
+            }
+        }
         if out.state_count < target {
             case.violation(
                 &format!("C12/target_state_count/{}/stopped-below-target-although-more-exist", strategy.name()),
